@@ -28,4 +28,7 @@ Definition round_half_even (q : Q) : Z :=
   then (if Qeq_bool r (1 # 2) then (if Z.even f then f else (f + 1)%Z) else f)
   else (f + 1)%Z.
 
+Fixpoint zip2 (f : Q -> Q -> Q) (a b : list Q) : list Q :=
+  match a, b with x :: a', y :: b' => f x y :: zip2 f a' b' | _, _ => [] end.
+
 End QL.
